@@ -51,15 +51,18 @@ func fnBitCount(ctx *cmdContext, args map[string]any) (output respValue, err err
 	// bounds checking
 	if start < 0 {
 		start = 0
-	} else if start >= length {
-		start = length - 1
+	}
+	if end < 0 {
+		end = 0
+	}
+	if end >= length {
+		end = length - 1
 	}
 
-	if end < start {
+	if start > end {
+		// nothing in range (this includes the empty string)
 		output.data = respInt(0)
 		return
-	} else if end >= length {
-		end = length - 1
 	}
 
 	if bitMode {
